@@ -5,6 +5,7 @@ registered user functions, real/complex/array/user-type data) are built by the r
 the real infer_kinds gives the table, the real interpreter runs one step on an instrumented store;
 specs/KindValues.tla judges every stored value against the kind of its variable."""
 
+import json
 import random
 
 import numpy as np
@@ -106,7 +107,7 @@ def kind_table_name(k):
     return n.replace("UserType_", "ut:")
 
 
-def observe(calls, order_seed=0):
+def observe(calls, order_seed=0, inputs="real"):
     import contextlib
     import io
     from dagrt.data import infer_kinds
@@ -116,7 +117,7 @@ def observe(calls, order_seed=0):
     cb, _ = progs.replay_calls("p0", calls)
     code = DAGCode.from_phases_list([cb.as_execution_phase("p0")], "p0")
     freg = register_ode_rhs(base_function_registry, "u", identifier="<func>f")
-    case = {"table": [], "stores": [], "assigned": [], "err": "", "calls": calls, "order_seed": order_seed}
+    case = {"table": [], "stores": [], "assigned": [], "err": "", "calls": calls, "order_seed": order_seed, "inputs": inputs}
     icode = code
     if order_seed:
         # present the statements to kind inference in another order (phases hold them as unordered sets)
@@ -140,13 +141,13 @@ def observe(calls, order_seed=0):
     case["assigned"] = sorted(assigned)
 
     def f(t, u):
-        return (u * 0.5 + t).view(UT)
+        return (u * (0.5 if inputs == "real" else 0.5j) + t).view(UT)
 
     it = NumpyInterpreter(code, {"<func>f": f})
     st = ClassStore()
     it.context = st
     it.eval_mapper.context = st
-    it.set_up(t_start=0.5, dt_start=0.25, context={"u": np.array([1.0, -2.0]).view(UT)})
+    it.set_up(t_start=0.5, dt_start=0.25, context={"u": (np.array([1.0, -2.0]) if inputs == "real" else np.array([1.0 + 1j, -2j])).view(UT)})
     st.events = []
     try:
         with np.errstate(all="ignore"):
@@ -169,6 +170,8 @@ def run(chk):
     programs += [gen.random_program(rng, alpha, rng.randint(4, 10), maxnest=0, typed=INPUTS)
                  for _ in range(300 if chk.quick else 6000)]
     cases = [observe(calls) for calls in programs]
+    # second input point: complex data in the user-type state (only programs that touch the user type can differ)
+    cases += [observe(calls, inputs="complex") for calls in programs if U in json.dumps(calls)]
     # widening family: a variable whose kind is widened (real -> complex, scalar -> array, scalar -> user type)
     # with a copy chain hanging off it, presented to inference in many statement orders
     x0 = assign("x", P(V("<dt>"), C(2)))
@@ -206,7 +209,8 @@ def run(chk):
         if (sig, t[1]) in seen:
             continue
         seen.add((sig, t[1]))
-        chk.violation(sig, what, {"calls": c["calls"], "order_seed": c.get("order_seed", 0)})
+        chk.violation(sig, what + (" (complex data in the user-type state)" if c.get("inputs") == "complex" else ""),
+                      {"calls": c["calls"], "order_seed": c.get("order_seed", 0), "inputs": c.get("inputs", "real")})
     chk.coverage.update({
         "evaluations": len(cases),
         "distinct_nontrivial": sum(1 for c in judged if len(c["stores"]) >= 2),
@@ -221,7 +225,7 @@ def run(chk):
         "samples": sample([{"program": progs.show_prog(c["calls"]), "table": c["table"], "stores": c["stores"]} for c in judged
                            if len(c["stores"]) >= 2], 3),
     })
-    chk.assumptions += ["one input point (t=0.5, dt=0.25, u=[1,-2]); user-type values are tagged ndarray subclasses",
+    chk.assumptions += ["two input points (t=0.5, dt=0.25, u=[1,-2] real; u=[1+1j,-2j] with a complex right-hand side); user-type values are tagged ndarray subclasses",
                         "Admits is lenient: ints and bools are admitted by real scalars, real values by complex kinds"]
 
 
@@ -248,7 +252,7 @@ def _construct(case, var):
 
 
 def replay(chk, rep):
-    c = observe(rep["case"]["calls"], rep["case"].get("order_seed", 0))
+    c = observe(rep["case"]["calls"], rep["case"].get("order_seed", 0), rep["case"].get("inputs", "real"))
     print(progs.show_prog(c["calls"]))
     print("table :", c["table"])
     print("stores:", c["stores"], c["err"])
